@@ -136,6 +136,16 @@ def run_c13(facts, out):
         ctx = Ctx(facts, H.binding_inits(hfn), hfn)
         res, _ = exp[kind](ctx, hfn)
         ok, why = res if isinstance(res, tuple) else (res, '')
+        if not ok:
+            # the search may live in a shared private helper: same question with it inlined (closures beta-reduced)
+            for dpt in (1, 2):
+                vh = H.inlined_fn(facts, hfn, depth=dpt, keep=('is_redundant', '_point_at'))
+                c2 = Ctx(facts, H.binding_inits(vh), vh)
+                res2, _ = exp[kind](c2, vh)
+                ok2, why2 = res2 if isinstance(res2, tuple) else (res2, '')
+                if ok2:
+                    ok, why = True, ''
+                    break
         b = facts.body(fn)
         out.add('SS-C13', fn, 'redundancy:' + kind, '%s:%d' % (b.file, b.line), ok,
                 why if not ok else '', ordinal=False)
